@@ -376,6 +376,14 @@ func runC12Runner(o *out, r *rng, thorough bool) {
 		restart := func() {
 			run.Cancel()
 			_ = wal.Close()
+			if r.chance(45) {
+				// the process died in the middle of a WAL append: the newest log file ends with a torn record (a proper
+				// prefix of a record).  Nothing acknowledged is affected; what is broadcast in the NEXT lifetime must still
+				// re-arm the filter in the one after it.
+				if tornTail(dir) {
+					desc = append(desc, "torn-tail")
+				}
+			}
 			wal, err = f3.VerifOpenWAL(dir)
 			must(err)
 			run, err = f3.VerifNewRunner(ctx, cs, mec, ps, backend, m, wal, local)
@@ -501,4 +509,34 @@ func b2i(b bool) int {
 		return 1
 	}
 	return 0
+}
+
+// tornTail appends a proper prefix of a record to the newest WAL file of dir (what a crash in the middle of an append
+// leaves behind); false when there is no non-empty log file yet
+func tornTail(dir string) bool {
+	ents, err := os.ReadDir(dir)
+	if err != nil {
+		return false
+	}
+	newest := ""
+	for _, e := range ents {
+		if !e.IsDir() && strings.HasSuffix(e.Name(), ".wal.cbor") && e.Name() > newest {
+			newest = e.Name()
+		}
+	}
+	if newest == "" {
+		return false
+	}
+	path := filepath.Join(dir, newest)
+	b, err := os.ReadFile(path)
+	if err != nil || len(b) < 24 {
+		return false
+	}
+	f, err := os.OpenFile(path, os.O_APPEND|os.O_WRONLY, 0o644)
+	if err != nil {
+		return false
+	}
+	defer f.Close()
+	_, err = f.Write(b[:5+len(b)%7]) // the first bytes of the file's first record: never a complete record
+	return err == nil
 }
